@@ -49,8 +49,18 @@ Record input := {
   exe_slot : slot;   (* <executable dir>/mutagen-agents.tar.gz *)
   lib_slot : slot;   (* <executable dir>/../libexec/mutagen-agents.tar.gz *)
   goos    : string;
-  goarch  : string
+  goarch  : string;
+  out_pre : option bytes   (* content already present at an explicit output path
+                              (None = fresh path, or temporary file) *)
 }.
+
+(* The output file is opened with O_WRONLY|O_CREATE|O_TRUNC (or created fresh
+   by os.CreateTemp) and then receives exactly header.Size bytes of the entry:
+   whatever was at the output path before is discarded, so [out_pre] is not
+   consulted by [run] below (c46_output_replaced). *)
+Definition with_pre (i : input) (p : option bytes) : input :=
+  {| in_bin := in_bin i; exe_slot := exe_slot i; lib_slot := lib_slot i;
+     goos := goos i; goarch := goarch i; out_pre := p |}.
 
 (* bundleSearchPaths under BundleLocationDefault: the executable's directory,
    then libexec iff filesystem.LibexecPath succeeds, i.e. iff the executable
